@@ -979,7 +979,7 @@ func normalizeRepo(goos, goarch string) (*normResult, error) {
 	sort.Strings(patterns)
 	var snapshot map[string][]byte
 	var snapInlined []string
-	for round := 0; round < 14; round++ {
+	for round := 0; round < 40; round++ {
 		cfg := &packages.Config{
 			Mode:    packages.NeedName | packages.NeedFiles | packages.NeedCompiledGoFiles | packages.NeedImports | packages.NeedTypes | packages.NeedSyntax | packages.NeedTypesInfo | packages.NeedTypesSizes,
 			Dir:     repoDir,
@@ -1012,7 +1012,7 @@ func normalizeRepo(goos, goarch string) (*normResult, error) {
 			snapshot[k] = v
 		}
 		snapInlined = append([]string{}, res.Inlined...)
-		if round == 13 {
+		if round == 39 {
 			break
 		}
 		progress := false
